@@ -4,8 +4,11 @@
 From Coq Require Import List String Bool Arith.
 Import ListNotations.
 
-(* ReadLocked: the method holds the lock in shared (RLock) mode only *)
-Inductive locking := Locked | LockedWhenInMemory | ReadLocked | ReadLockedWhenInMemory | Unlocked | ReleasedEarly | UnknownLocking.
+(* ReadLocked: the method holds the lock in shared (RLock) mode only.
+   Reentrant: the method holds the receiver's lock and calls a method of the receiver that takes
+   it again (sync.RWMutex is not reentrant: certain deadlock in exclusive mode, deadlock as soon as
+   a writer waits in between in shared mode) *)
+Inductive locking := Locked | LockedWhenInMemory | ReadLocked | ReadLockedWhenInMemory | Unlocked | ReleasedEarly | Reentrant | UnknownLocking.
 
 Record lock_fact := mkFact {
   lf_type : string; lf_method : string; lf_locking : locking;
@@ -22,7 +25,7 @@ Definition shared_mode (l : locking) : bool :=
    at once) -, taking the argument's lock too when it touches the argument's state *)
 Definition well_locked (f : lock_fact) : bool :=
   match lf_locking f with
-  | UnknownLocking | ReleasedEarly => false
+  | UnknownLocking | ReleasedEarly | Reentrant => false
   | _ =>
       let touches := negb (match lf_reads f, lf_writes f with [], [] => true | _, _ => false end) in
       (negb touches || holds_lock (lf_locking f)) && (negb (lf_arg_touched f) || lf_arg_locked f) &&
